@@ -192,6 +192,29 @@ def plain_digest(system):
     return json.dumps({'data': data, 'now': system.env.now}, sort_keys=True, default=repr)
 
 
+def _plain_machine():
+    from simprocesd.model.factory_floor import PartProcessor
+
+    class PlainMachine(PartProcessor):
+        """A user's machine type (module level, so that it can be pickled) whose work orders take time."""
+        wo_duration = 0
+
+        def get_work_order_duration(self, tag):
+            return self.wo_duration
+    return PlainMachine
+
+
+PlainMachine = None
+
+
+def plain_machine_class():
+    global PlainMachine
+    if PlainMachine is None:
+        PlainMachine = _plain_machine()
+        PlainMachine.__qualname__ = 'PlainMachine'
+    return PlainMachine
+
+
 def plain_simulation(system, index, params, seed):
     """A model built only from the library's own classes, the way a user writes one: the returned System is
     pickled with nothing of the harness inside it."""
@@ -207,7 +230,8 @@ def plain_simulation(system, index, params, seed):
     m1 = PartProcessor(name='M1', upstream=[src], cycle_time=params['ct1'], resources_for_processing={'op': 1})
     m2 = PartProcessor(name='M2', upstream=[src], cycle_time=params['ct2'], resources_for_processing={'op': 1})
     buf = Buffer(name='B', upstream=[m1, m2], capacity=params['cap'])
-    m3 = PartProcessor(name='M3', upstream=[buf], cycle_time=params['ct3'])
+    m3 = plain_machine_class()(name='M3', upstream=[buf], cycle_time=params['ct3'])
+    m3.wo_duration = params.get('wo_duration', 0)
     Sink(name='K', upstream=[m3])
     if params['scheduler']:
         sched = ActionScheduler([(params['on'], True), (params['off'], False)], name='shift')
@@ -225,6 +249,7 @@ def plain_simulation(system, index, params, seed):
 
 def run(sh):
     from simprocesd.model import System
+    plain_machine_class()       # (defined before any worker process is forked and before results are unpickled)
     n = 72 if sh.tier == 'quick' else 8000
     npar = 24 if sh.tier == 'quick' else 400
     profiles = ['general', 'routing', 'resources', 'faults']
@@ -357,6 +382,15 @@ def run(sh):
                       'scheduler': rng.random() < 0.7, 'on': rng.choice([4, 6]), 'off': rng.choice([1, 2]),
                       'sensor': rng.random() < 0.5, 'orders': sorted(rng.sample(range(1, 30), 2)),
                       'horizon': float(rng.choice([30, 40]))}
+            if rng.random() < 0.6:
+                # a work order that takes time and is still in progress when the run ends (the returned System
+                # carries its pending FINISH_WORK event)
+                params['wo_duration'] = rng.choice([2.5, 4])
+                params['orders'].append(params['horizon'] - rng.choice([0.5, 1, 2]))
+                sh.count('plain_models_with_an_order_in_progress_at_the_end')
+            if i % 5 == 2:
+                params['horizon'] = float(rng.choice([600, 900]))       # a long causal history behind every event
+                sh.count('plain_models_with_a_long_history')
             pcase = {'engine': 'parallel_plain', 'params': params, 'seed': seed, 'n': nsim}
             pref = System.simulate_multiple_times(plain_simulation, nsim, 0, params, seed)
             for mp in (1, 3, None):
